@@ -281,8 +281,8 @@ impl Prop for C06 {
     }
     fn runs(&self, tier: Tier) -> u64 {
         match tier {
-            Tier::Quick => 400_000,
-            Tier::Thorough => 6_000_000,
+            Tier::Quick => 3_000_000,
+            Tier::Thorough => 40_000_000,
         }
     }
     fn rule(&self) -> &'static str {
@@ -630,8 +630,8 @@ impl Prop for C05 {
     }
     fn runs(&self, tier: Tier) -> u64 {
         match tier {
-            Tier::Quick => 400_000,
-            Tier::Thorough => 6_000_000,
+            Tier::Quick => 3_000_000,
+            Tier::Thorough => 40_000_000,
         }
     }
     fn rule(&self) -> &'static str {
